@@ -203,6 +203,8 @@ type Job struct {
 	TransLo int      `json:"trans_lo"`
 	TransHi int      `json:"trans_hi"`
 	Fuel    int      `json:"fuel"`
+	Histories   [][]string `json:"histories,omitempty"`
+	HistoryMode string     `json:"history_mode,omitempty"`
 }
 
 type Out struct {
@@ -213,6 +215,86 @@ type Out struct {
 	Dump  [][]int    `json:"dump,omitempty"`
 	Trans []int      `json:"trans,omitempty"`
 	Err   string     `json:"err,omitempty"`
+	History []string    `json:"history,omitempty"`
+	Results []rt.Result `json:"results,omitempty"`
+}
+
+// SchedJob / SchedOut mirror the driver's scheduler protocol (sched_drv.go.txt).
+type SchedJob struct {
+	Pkg          string   `json:"pkg"`
+	Inputs       []string `json:"inputs"`
+	Bound        int      `json:"bound"`
+	Fuel         int      `json:"fuel"`
+	MaxSchedules int      `json:"max_schedules"`
+	Goroutines   int      `json:"goroutines"`
+	Rounds       int      `json:"rounds"`
+}
+
+type SchedOut struct {
+	Pkg         string      `json:"pkg"`
+	Kind        string      `json:"kind"`
+	Inputs      []string    `json:"inputs"`
+	Schedules   int         `json:"schedules"`
+	Points      int         `json:"points"`
+	Capped      bool        `json:"capped"`
+	Solo        []rt.Result `json:"solo"`
+	BadSchedule []int       `json:"bad_schedule,omitempty"`
+	BadThread   int         `json:"bad_thread"`
+	BadResult   *rt.Result  `json:"bad_result,omitempty"`
+	Replayed    bool        `json:"replayed"`
+	Outcomes    []int       `json:"outcomes"`
+	Err         string      `json:"err,omitempty"`
+}
+
+// BuildRace links the same driver with the race detector (drv-race).
+func (b *Batch) BuildRace() error {
+	cmd := exec.Command("go", "build", "-race", "-o", "drv-race", ".")
+	cmd.Dir = b.Dir
+	cmd.Env = append(os.Environ(), "GOFLAGS=-mod=mod", "CGO_ENABLED=1")
+	out, err := cmd.CombinedOutput()
+	if err != nil {
+		return fmt.Errorf("go build -race of the driver failed:\n%s", tail(string(out), 2000))
+	}
+	return nil
+}
+
+// RunSched runs scheduler (or race) jobs; race selects the -race binary. The
+// combined output of the process is returned (race reports go to stderr).
+func (b *Batch) RunSched(jobs []SchedJob, race bool, f func(o *SchedOut)) (string, error) {
+	jp := filepath.Join(b.Dir, "schedjobs.json")
+	op := filepath.Join(b.Dir, "schedout.json")
+	jf, err := os.Create(jp)
+	if err != nil {
+		return "", err
+	}
+	enc := json.NewEncoder(jf)
+	for _, j := range jobs {
+		enc.Encode(j)
+	}
+	jf.Close()
+	bin := "drv"
+	env := append(os.Environ(), "GOMAXPROCS=2", "TMPDIR="+b.Dir)
+	if race {
+		bin = "drv-race"
+		env = append(os.Environ(), "GOMAXPROCS=8", "GORACE=exitcode=66 halt_on_error=0", "TMPDIR="+b.Dir)
+	}
+	cmd := exec.Command(filepath.Join(b.Dir, bin), "sched", jp, op)
+	cmd.Dir = b.Dir
+	cmd.Env = env
+	out, runErr := cmd.CombinedOutput()
+	of, err := os.Open(op)
+	if err == nil {
+		defer of.Close()
+		dec := json.NewDecoder(bufio.NewReaderSize(of, 1<<20))
+		for dec.More() {
+			var o SchedOut
+			if dec.Decode(&o) != nil {
+				break
+			}
+			f(&o)
+		}
+	}
+	return string(out), runErr
 }
 
 // RunGo executes the jobs in the driver binary and streams the results to f.
